@@ -38,21 +38,13 @@ def is_missing(v):
 
 
 def plain(v):
-  """Plain, comparable image of a (possibly symbolic) stored value."""
+  """Plain, comparable image of a stored value (same function as in witnesses)."""
+  if isinstance(v, pg.Object):
+    return (type(v).__name__, plain(v.sym_init_args))
   if isinstance(v, pg.Dict):
     return {k: plain(c) for k, c in v.sym_items()}
   if isinstance(v, pg.List):
     return [plain(c) for c in v.sym_values()]
-  if isinstance(v, pg.Object):
-    return ('obj', type(v).__name__, {k: plain(c) for k, c in v.sym_items()})
-  if isinstance(v, dict):
-    return {k: plain(c) for k, c in v.items()}
-  if isinstance(v, list):
-    return [plain(c) for c in v]
-  if isinstance(v, tuple):
-    return tuple(plain(c) for c in v)
-  if is_missing(v):
-    return M
   return v
 
 
@@ -75,12 +67,17 @@ def unsym(v, objs):
 
 
 PLAIN_SRC = '''def plain(v):
- if isinstance(v,pg.Dict):return {k:plain(c) for k,c in v.sym_items()}
- if isinstance(v,pg.List):return [plain(c) for c in v.sym_values()]
- if isinstance(v,pg.Object):return ('obj',type(v).__name__,{k:plain(c) for k,c in v.sym_items()})
- if isinstance(v,dict):return {k:plain(c) for k,c in v.items()}
- if isinstance(v,(list,tuple)):return type(v)(plain(c) for c in v)
+ if isinstance(v,pg.Object):return(type(v).__name__,plain(v.sym_init_args))
+ if isinstance(v,pg.Dict):return{k:plain(c)for k,c in v.sym_items()}
+ if isinstance(v,pg.List):return[plain(c)for c in v.sym_values()]
  return v'''
+RUN_SRC = '''def run(s):
+ try:exec(s,globals())
+ except Exception as e:return e'''
+RUN_SRC_PARTIAL = '''def run(s):
+ try:
+  with pg.allow_partial(True):exec(s,globals())
+ except Exception as e:return e'''
 
 
 # ---------------------------------------------------------------------------
@@ -291,7 +288,8 @@ def d_object(cls_name, fields, assignable=True):
   """A pg.Object subclass `cls_name` with the given [(key, Desc)] fields."""
   ok_fields = _dict_ok(fields)
   def ok(v, partial):
-    return isinstance(v, tuple) and len(v) == 3 and v[0] == 'obj' and v[1] == cls_name and ok_fields(v[2], partial)
+    return (isinstance(v, tuple) and len(v) == 2 and v[0] == cls_name and isinstance(v[1], dict)
+            and ok_fields(v[1], partial))
   pre = ''.join(d.pre for _, d in fields) + (
       f"@pg.members([{', '.join(_field_src(k, d) for k, d in fields)}])\n"
       f"class {cls_name}(pg.Object):\n  allow_symbolic_assignment = {assignable}\n"
@@ -355,7 +353,8 @@ def frozen(d, value_src):
   return n
 
 
-_ENV = dict(pg=pg, T=T, M=M, Ins=Ins)
+NC = dict(raise_on_no_change=False)
+_ENV = dict(pg=pg, T=T, M=M, Ins=Ins, NC=NC)
 _CODE = {}
 
 
@@ -473,10 +472,16 @@ def _check_real(value, spec, partial):
 class Run:
   """One live subject driven through a history of ops."""
 
-  def __init__(self, rec, subject, repeat=True):
-    self.rec, self.sub, self.repeat = rec, subject, repeat
+  def __init__(self, rec, subject, repeat=True, fresh=False):
+    self.rec, self.sub, self.repeat, self.fresh = rec, subject, repeat, fresh
+    if fresh:
+      _PRE_ENV.pop(subject.root_desc.pre, None)
     self.env = subject.build()
+    if fresh:
+      _PRE_ENV.pop(subject.root_desc.pre, None)
     self.prefix = []
+    self.done = []
+    self.broken = False
 
   @property
   def root(self):
@@ -488,13 +493,21 @@ class Run:
 
   def witness(self, op_src, check):
     s = self.sub
-    lines = ['import pyglove as pg', 'T=pg.typing;M=pg.MISSING_VALUE;Ins=pg.Insertion', PLAIN_SRC, s.setup]
-    for p in self.prefix:
-      lines.append(_guarded(p, s.scope_partial))
-    lines.append('before=plain(root)')
-    lines.append(_guarded(op_src, s.scope_partial, capture=True))
-    lines.append(check)
+    lines = ['import pyglove as pg', 'T=pg.typing;M=pg.MISSING_VALUE;Ins=pg.Insertion;NC=dict(raise_on_no_change=False)', PLAIN_SRC,
+             RUN_SRC_PARTIAL if s.scope_partial else RUN_SRC, self._setup_for(op_src)]
+    lines += [f'run({p!r})' for p in self.prefix]
+    lines += ['before=plain(root)', f'raised=run({op_src!r})', check]
     return '\n'.join(lines)
+
+  def _setup_for(self, op_src):
+    setup = self.sub.setup
+    if 'Other(' not in op_src and not any('Other(' in p for p in self.prefix):
+      setup = re.sub(r'class \w+Other\(pg\.Object\):\n  pass\n', '', setup)
+    return setup
+
+  def room(self):
+    """Whether one more step still fits the witness size kept by Recorder."""
+    return 640 + len(self.sub.setup) + sum(len(repr(p)) + 6 for p in self.prefix) < 1000
 
   def invariant(self, target=None, desc=None):
     """None or a message: model + real-spec check of root (or of a result)."""
@@ -509,8 +522,39 @@ class Run:
     return _check_real(value, spec, partial)
 
   def step(self, op, key):
-    """op: dict(src, cid, expect, allow_index_error, batch_ok, result)."""
-    rec, s = self.rec, self.sub
+    """Runs op, judges it, records the case.  Returns (ok, raised)."""
+    if self.broken:      # an earlier step of this history failed: state is off
+      return False, None
+    ok, cid, msg, wit, raised = self._judge(op)
+    cached = bool(self.sub.root_desc.pre) and not self.fresh
+    if not ok and cached:
+      # Class definitions (and the default values inside their specs) are
+      # shared between runs of one subject: confirm the failure on freshly
+      # built classes so that state leaked by an earlier run cannot cause it.
+      _PRE_ENV.pop(self.sub.root_desc.pre, None)
+      fresh = Run(None, self.sub, repeat=False, fresh=True)
+      for o in self.done:
+        fresh._judge(o)  # pylint: disable=protected-access
+        fresh.prefix.append(o['src'])
+      ok, cid, msg, wit, raised = fresh._judge(op)  # pylint: disable=protected-access
+      self.env, self.prefix, self.fresh = fresh.env, fresh.prefix, True
+    elif cached and any(t in op['src'] for t in ('M', 'Obj()', 'clear()', 'partial(')):
+      _PRE_ENV.pop(self.sub.root_desc.pre, None)   # spec defaults were (re)applied
+    self.rec.case(cid, key, ok, msg, wit)
+    self.done.append(op)
+    self.broken = not ok
+    if ok:
+      self.prefix.append(op['src'])
+      if op['expect'] == 'reject' and not op.get('_repeat') and self.repeat:
+        # A rejection must not make the same write acceptable the next time.
+        kindname, _, cls = op['cid'].partition('/')
+        again = dict(op, _repeat=True, cid=f'{kindname.split(".")[0]}.repeat-after-rejection/{cls}')
+        self.step(again, key + ('again',))
+    return ok and not self.broken, raised
+
+  def _judge(self, op):
+    """op: dict(src, cid, expect, index_error, batch_ok, result)."""
+    s = self.sub
     cid = op['cid']
     before = plain(self.root)
     raised = None
@@ -544,15 +588,15 @@ class Run:
                           f'{op["src"]}: {before!r} -> {after!r}')
       if not ok:
         wit = self.witness(op['src'],
-                           'assert isinstance(raised,(TypeError,ValueError,KeyError)),f"accepted/wrong class: {raised!r}, state {plain(root)!r}"\n'
-                           'assert plain(root)==before,(before,plain(root))')
+                           'assert isinstance(raised,(TypeError,ValueError,KeyError)),("accepted",raised,plain(root))\n'
+                           'assert plain(root)==before,plain(root)')
     else:
       if raised is not None and not isinstance(raised, allowed):
         ok, msg = False, f'{op["src"]} on {before!r} raised {type(raised).__name__}: {raised}'
-        wit = self.witness(op['src'], 'assert raised is None or isinstance(raised,(TypeError,ValueError,KeyError)),repr(raised)')
+        wit = self.witness(op['src'], 'assert isinstance(raised,(type(None),TypeError,ValueError,KeyError)),raised')
       elif raised is not None and not unchanged:
         ok, msg = False, f'failed call ({type(raised).__name__}) changed the state: {op["src"]}: {before!r} -> {after!r}'
-        wit = self.witness(op['src'], 'assert raised is None or plain(root)==before,(raised,before,plain(root))')
+        wit = self.witness(op['src'], 'assert raised is None or plain(root)==before,(raised,plain(root))')
     if ok:
       bad = self.invariant()
       where = 'root'
@@ -568,32 +612,8 @@ class Run:
         msg = f'after {op["src"]} on {before!r}: {bad}'
         tgt = 'root' if where == 'root' else 'y'
         img = plain(self.root if where == 'root' else self.env.get('y'))
-        wit = self.witness(op['src'], f'assert repr(plain({tgt}))!={repr(img)!r},"schema-violating state: "+repr(plain({tgt}))')
-    rec.case(cid, key, ok, msg, wit)
-    if ok:
-      self.prefix.append(op['src'])
-      if op['expect'] == 'reject' and not op.get('result') and not op.get('_repeat') and self.repeat:
-        # A rejection must not make the same write acceptable the next time.
-        kindname, _, cls = op['cid'].partition('/')
-        again = dict(op, _repeat=True, cid=f'{kindname.split(".")[0]}.repeat-after-rejection/{cls}')
-        self.step(again, key + ('again',))
-    return ok, raised
-
-
-def _guarded(src, scope_partial, capture=False):
-  body = src.split('\n')
-  ind = ' '
-  lines = ['try:']
-  if scope_partial:
-    lines.append(' with pg.allow_partial(True):')
-    ind = '  '
-  lines += [ind + b for b in body]
-  if capture:
-    lines.append(' raised=None')
-    lines.append('except Exception as e:raised=e')
-  else:
-    lines.append('except Exception:pass')
-  return '\n'.join(lines)
+        wit = self.witness(op['src'], f'assert repr(plain({tgt}))!={repr(img)!r},"schema-violating state"')
+    return ok, cid, msg, wit, raised
 
 
 # ---------------------------------------------------------------------------
@@ -725,8 +745,8 @@ def list_ops(sub, n, elem_samples):
   add('delitem-slice', 'del x[0:1]', max(n - 1, 0), delete=True)
   add('delitem-slice', 'del x[:]', 0, delete=True)
   add('setitem-MISSING', 'x[0]=M', n - 1 if n else None, delete=True, index_error=(n == 0))
-  add('rebind-delete', 'x.rebind({0:M},raise_on_no_change=False)', max(n - 1, 0), delete=True)
-  add('rebind-delete', f'x.rebind({{{n - 1 if n else 0}:M}},raise_on_no_change=False)', max(n - 1, 0), delete=True)
+  add('rebind-delete', 'x.rebind({0:M},**NC)', max(n - 1, 0), delete=True)
+  add('rebind-delete', f'x.rebind({{{n - 1 if n else 0}:M}},**NC)', max(n - 1, 0), delete=True)
   if n >= 1:
     add('remove', 'x.remove(x[0])', n - 1, delete=True)
     add('setitem-slice-delete', 'x[0:1]=[]', n - 1, delete=True, batch=True)
@@ -751,11 +771,11 @@ def _x_image(sub, root_img):
     return root_img
   acc = m.group(1)
   if acc == '.l':
-    return root_img[2]['l'] if isinstance(root_img, tuple) else root_img['l']
+    return root_img[1]['l'] if isinstance(root_img, tuple) else root_img['l']
   if acc == '[0]':
     return root_img[0]
   if acc == '.d':
-    return root_img[2]['d'] if isinstance(root_img, tuple) else root_img['d']
+    return root_img[1]['d'] if isinstance(root_img, tuple) else root_img['d']
   raise ValueError(acc)
 
 
@@ -845,7 +865,7 @@ def drv_list_histories(tier, seed):
             if len(r.x) > 12 and ('*' in op['src'] or 'x+=x' in op['src'] or 'extend(x)' in op['src']):
               continue
             ok, _ = r.step(op, ('rand', elem.name, lo, hi, where, seed, h, j))
-            if not ok:
+            if not ok or not r.room():
               break
   return rec.result()
 
@@ -915,8 +935,8 @@ def object_subject(fd, where='top', mode='full'):
 def _dict_batch_ok(keys_valid):
   """keys_valid: {key: plain valid value} that a batch may already have applied."""
   def g(xb, xa):
-    xb = xb[2] if isinstance(xb, tuple) else xb
-    xa = xa[2] if isinstance(xa, tuple) else xa
+    xb = xb[1] if isinstance(xb, tuple) else xb
+    xa = xa[1] if isinstance(xa, tuple) else xa
     if set(xa) - set(xb) - set(keys_valid):
       return False
     for k in set(xa) | set(xb):
@@ -940,7 +960,7 @@ def dict_ops(sub, fd, present):
   kind = sub.kind
   partial = sub.partial or sub.scope_partial
   ops = []
-  img = present[2] if isinstance(present, tuple) else present
+  img = present[1] if isinstance(present, tuple) else present
 
   def add(name, src, cls, why=None, batch=None, result=None):
     op = dict(src=src, cid=f'{kind}.{name}/{cls}', expect='reject' if why else 'any', why=why, result=result)
@@ -966,9 +986,9 @@ def dict_ops(sub, fd, present):
       add('sym_init_args-setitem' + tag, f'x.sym_init_args[{key!r}]={s}', cls, why)
       add('sym_init_args-ior' + tag, f'x.sym_init_args.__ior__({{{key!r}:{s}}})', cls, why)
       add('sym_init_args-update' + tag, f'x.sym_init_args.update({{{key!r}:{s}}})', cls, why)
-    add('rebind' + tag, f'x.rebind({{{key!r}:{s}}},raise_on_no_change=False)', cls, why)
+    add('rebind' + tag, f'x.rebind({{{key!r}:{s}}},**NC)', cls, why)
     if ident:
-      add('rebind-kwargs' + tag, f'x.rebind({key}={s},raise_on_no_change=False)', cls, why)
+      add('rebind-kwargs' + tag, f'x.rebind({key}={s},**NC)', cls, why)
     add('clone-override' + tag, f'y=x.clone(override={{{key!r}:{s}}})', cls, why, result=sub.x_desc)
     add('clone-override' + tag, f'y=x.clone(deep=True,override={{{key!r}:{s}}})', cls, why, result=sub.x_desc)
     # batches: a valid write to g first / after
@@ -977,8 +997,8 @@ def dict_ops(sub, fd, present):
       add('update-multi' + tag, f'x.update({{"g":2,{key!r}:{s}}})', cls, why, batch=vg)
       add('update-multi' + tag, f'x.update({{{key!r}:{s},"g":2}})', cls, why, batch=vg)
       add('ior-multi' + tag, f'x|={{"g":2,{key!r}:{s}}}', cls, why, batch=vg)
-    add('rebind-multi' + tag, f'x.rebind({{"g":2,{key!r}:{s}}},raise_on_no_change=False)', cls, why, batch=vg)
-    add('rebind-multi' + tag, f'x.rebind({{{key!r}:{s},"g":2}},raise_on_no_change=False)', cls, why, batch=vg)
+    add('rebind-multi' + tag, f'x.rebind({{"g":2,{key!r}:{s}}},**NC)', cls, why, batch=vg)
+    add('rebind-multi' + tag, f'x.rebind({{{key!r}:{s},"g":2}},**NC)', cls, why, batch=vg)
 
   # 1. field f: valid and invalid values (a value that merely lacks required
   # members is acceptable when partial values are allowed)
@@ -1072,7 +1092,7 @@ def dict_ops(sub, fd, present):
       add('child-iadd', f'x.f.__iadd__([{s}])', 'invalid-element', why)
       add('child-setitem', f'x.f[0]={s}', 'invalid-element', why)
     for lab, s in e.valid[:1]:
-      add('rebind-path', f'x.rebind({{"f[0]":{s}}},raise_on_no_change=False)', 'valid-element')
+      add('rebind-path', f'x.rebind({{"f[0]":{s}}},**NC)', 'valid-element')
   if hasattr(fd, 'fields') and isinstance(f_now, dict) and fd.name.startswith('Dict(p'):
     add('rebind-path', 'x.rebind({"f.p":9})', 'invalid-member', 'p: 9 > max 5')
     add('rebind-path', 'x.rebind({"f.zz":1})', 'undeclared-key', 'zz not declared in f')
@@ -1179,7 +1199,7 @@ def drv_dict_histories(tier, seed):
   rec = Recorder(
       'C03', 'typed pg.Dict / pg.Object: mutation histories',
       scope='field specs Int[0,5], Int default, List(Int,1,2), Dict(p,q=d); modes full/partial/scope; all histories of '
-            'length 2 over the per-state op alphabet restricted to single-location writes/removals (quick: sampled 1/7), '
+            'length 2 over the per-state op alphabet restricted to single-location writes/removals (sampled 1/13 x 1/13 in quick, 1/3 x 1/3 in thorough), '
             'seeded random histories of length <=8 over the whole alphabet; checks after every step')
   i05 = d_int(0, 5)
   fds = [i05, with_default(d_int(0, 5), '2'), d_list(i05, 1, 2),
@@ -1191,7 +1211,7 @@ def drv_dict_histories(tier, seed):
         sub = mk(fd, 'top', mode)
         probe = Run(rec, sub)
         first = [o for o in dict_ops(sub, fd, plain(probe.x)) if not o.get('result')]
-        stride = 7 if tier == 'quick' else 2
+        stride = 13 if tier == 'quick' else 3
         for i, op1 in enumerate(first):
           if i % stride:
             continue
@@ -1202,12 +1222,12 @@ def drv_dict_histories(tier, seed):
             r2 = Run(rec, sub)
             r2.step(op1, (fd.name, sub.kind, mode, op1['src']))
             r2.step(op2, (fd.name, sub.kind, mode, op1['src'], op2['src']))
-        for h in range(25 if tier == 'quick' else 400):
+        for h in range(12 if tier == 'quick' else 250):
           r = Run(rec, sub)
           for j in range(rnd.randint(3, 8)):
             ops = [o for o in dict_ops(sub, fd, plain(r.x)) if not o.get('result')]
             ok, _ = r.step(rnd.choice(ops), ('rand', fd.name, sub.kind, mode, seed, h, j))
-            if not ok:
+            if not ok or not r.room():
               break
   return rec.result()
 
